@@ -67,7 +67,9 @@ def gen_max_color(rng, i=None):
     return {
         "glyphs": glyphs,
         # font metrics by case index: default (advance 1275), narrower fixed advances, proportional
-        "overrides": dict([{}, dict(upem=1000, ascender=800, descender=-200, width=1000), dict(upem=2048, ascender=1900, descender=-500, width=0), dict(width=600)][i % 4], color_format=fmt, output_file="in.ttf", clip_to_viewbox=not overflow, keep_glyph_names=rng.random() < 0.5, _layout=len(glyphs) >= 3 and i % 8 in (0, 2, 5, 6), _hhea=[None, (150, -60), (0, -40), None, (210, 0)][i % 5]),
+        "overrides": dict([{}, dict(upem=1000, ascender=800, descender=-200, width=1000), dict(upem=2048, ascender=1900, descender=-500, width=0), dict(width=600)][i % 4], color_format=fmt, output_file="in.ttf", clip_to_viewbox=not overflow, keep_glyph_names=rng.random() < 0.5, _layout=len(glyphs) >= 3 and i % 8 in (0, 2, 5, 6), _hhea=[None, (150, -60), (0, -40), None, (210, 0)][i % 5],
+                          # options given to maximum_color itself: they must reach the step that builds the added tables
+                          _mc_flags={1: ["--clipbox_quantization", "64"], 7: ["--clipbox_quantization", "30"], 4: ["--bitmap_resolution", "64"], 5: ["--bitmap_resolution", "96"]}.get(i % 8, [])),
         "bitmaps": i % 8 in (1, 4, 5),
         "keep_names": rng.random() < 0.5,
     }
@@ -79,6 +81,7 @@ def run_maximum_color(glyphs, overrides, bitmaps, keep_names):
     overrides = dict(overrides)
     layout = overrides.pop("_layout", False)
     hhea = overrides.pop("_hhea", None)
+    mc_flags = overrides.pop("_mc_flags", [])
     cfg = e2e.default_config(**overrides)
     ufo, font_in, inputs, data = e2e.build(glyphs, cfg)
     if hhea:
@@ -118,10 +121,11 @@ def run_maximum_color(glyphs, overrides, bitmaps, keep_names):
         cmd = [sys.executable, "-m", "nanoemoji.maximum_color", "--build_dir", os.path.join(d, "b"), "--keep_glyph_names" if keep_names else "--nokeep_glyph_names"]
         if bitmaps:
             cmd.append("--bitmaps")
+        cmd += list(mc_flags)
         cmd.append(src)
         env = dict(os.environ, PYTHONPATH=_repo_src(), PATH="/venv/bin:" + os.environ.get("PATH", ""), SOURCE_DATE_EPOCH="1600000000", PYTHONHASHSEED="1")
         r = subprocess.run(cmd, cwd=d, env=env, capture_output=True, text=True, timeout=900)
-        out = {"exit": r.returncode, "stderr": (r.stdout[-1500:] + r.stderr[-1500:]), "cfg": cfg, "font_in": font_in, "font_out": None, "same_bytes_other_hash_seed": None}
+        out = {"exit": r.returncode, "stderr": (r.stdout[-1500:] + r.stderr[-1500:]), "cfg": cfg, "font_in": font_in, "font_out": None, "same_bytes_other_hash_seed": None, "mc_flags": list(mc_flags)}
         if r.returncode == 0:
             outs = [f for f in os.listdir(os.path.join(d, "b")) if f in ("Font.ttf", "AnEmojiFamily.ttf")]
             if outs:
@@ -187,6 +191,8 @@ def max_color_problems(glyphs, overrides, bitmaps, keep_names, result):
     if result["exit"] != 0 or result["font_out"] is None:
         return [("maximum_color failed", result["stderr"][-600:])]
     fi, fo, cfg = result["font_in"], result["font_out"], result["cfg"]
+    flags_ = result.get("mc_flags", [])
+    mc = dict(zip(flags_[0::2], flags_[1::2]))
     bad = []
     cm_i, cm_o = fi.getBestCmap(), fo.getBestCmap()
     gid_i = {cp: fi.getGlyphID(n) for cp, n in cm_i.items()}
@@ -252,6 +258,28 @@ def max_color_problems(glyphs, overrides, bitmaps, keep_names, result):
             found = sum(1 for data in fo["CBDT"].strikeData if no in data)
             if found != (1 if g.items else 0):
                 bad.append((hex(cp), "bitmaps for glyph", found))
+            # C14 for the added bitmaps: the strike size follows --bitmap_resolution and the
+            # bitmap's box sits on the em box scaled to the strike's ppem
+            for strike, data in zip(fo["CBLC"].strikes, fo["CBDT"].strikeData):
+                if no in data:
+                    bm = data[no]
+                    h_ = bm.metrics.height
+                    want_h = int(mc.get("--bitmap_resolution", 128))
+                    if h_ != want_h:
+                        bad.append((hex(cp), "bitmap height", h_, want_h))
+                    ppem = strike.bitmapSizeTable.ppemY
+                    F_ = cfg.ascender - cfg.descender
+                    if ppem != round(cfg.upem * h_ / F_):
+                        bad.append((hex(cp), "strike ppem", ppem, round(cfg.upem * h_ / F_)))
+                    tol = 2 if bm.metrics.BearingY in (127, -128) else 1
+                    if F_ <= 2 * cfg.upem and abs(bm.metrics.BearingY - cfg.ascender * ppem / cfg.upem) > tol + 1e-9:
+                        bad.append((hex(cp), "CBDT top edge", bm.metrics.BearingY, cfg.ascender * ppem / cfg.upem))
+    q = mc.get("--clipbox_quantization")
+    if q and not had_colr and fo["COLR"].version == 1 and fo["COLR"].table.ClipList:
+        for nm, box in fo["COLR"].table.ClipList.clips.items():
+            if any(v % int(q) for v in (box.xMin, box.yMin, box.xMax, box.yMax)):
+                bad.append(("clip box of the added COLR table is not a multiple of --clipbox_quantization", nm, q, (box.xMin, box.yMin, box.xMax, box.yMax)))
+                break
     return bad[:6]
 
 
